@@ -96,6 +96,8 @@ def stepCore (st : St) (pre post : List String) : St × Verdict :=
     let names := (ns.splitOn ",").map nameOf
     ({ names := names, shadow := { stores := names.map fun n => (n, {}) } }, .ok)
   | ["panic", who] => (st, pf st "panic" s!"{who}: {post}")
+  -- a software upgrade mounts an additional (empty) IAVL substore at the next reopen
+  | ["mount", name] => ({ st with names := st.names ++ [nameOf name] }, .ok)
   | ["open"] =>
     match openMS H st.shadow st.names with
     | none => (st, .diff "model cannot open empty disk")
@@ -283,9 +285,14 @@ def stepCore (st : St) (pre post : List String) : St × Verdict :=
       let mm := rollbackMS st.shadow st.names h
       let committed := (st.obs.find? (·.1 = h)).isSome ∧ (latestObs st).any (fun e => h < e.1)
       match post with
-      | "ERR" :: _ | "PANIC" :: _ =>
-        if committed then (st, pf st "rollback-fails" s!"target {h}: {post}")
-        else if mm.isSome then (st, .diff s!"rollback {h}: model succeeds, implementation fails {post}")
+      | "ERR" :: msg :: evs =>
+        -- the writes that reached the DB before the failure still happened
+        let shadow' := ((if evs = ["-"] ∨ evs = [] then some [] else evs.mapM parseEvent).bind fun batches =>
+          batches.foldlM (fun d b => Disk.applyRawAll d b) st.shadow).getD st.shadow
+        if committed then
+          ({ st with shadow := shadow', obs := st.obs.filter (fun e => e.1 ≤ h), model := none },
+            pf st "failed" s!"RollbackVersion({h}) failed on a committed height: {msg}")
+        else if mm.isSome then (st, .diff s!"rollback {h}: model succeeds, implementation fails {msg}")
         else (st, .ok)
       | "OK" :: evs =>
         match (if evs = ["-"] then some [] else evs.mapM parseEvent) with
